@@ -5,7 +5,7 @@ from hypothesis import strategies as st
 
 from anytree import AnyNode, Node, SymlinkNode
 
-from .. import mut, nodes, shapes
+from .. import big, mut, nodes, shapes
 from ..core import Violation
 
 PROP_ID = "C02"
@@ -15,7 +15,7 @@ RULE = (
     "labelled ordered forest over N <= 4 (thorough additionally N = 5 with children sequences of length <= 2) x build routes x "
     "every parent assignment (incl. None, self, descendants, non-node values for NodeMixin classes) x every children sequence of "
     "length <= N over the labels (repeats, self, ancestors, descendants, other parents' children, own children re-ordered) x every "
-    "deletion, for a NodeMixin and a slotted LightNodeMixin class; constructors of Node/AnyNode/SymlinkNode with every parent= and "
+    "deletion, for a NodeMixin and a slotted LightNodeMixin class; constructors of Node/AnyNode/SymlinkNode and of a user class that calls the remaining constructors of its cooperative inheritance chain after setting parent/children, with every parent= and "
     "children= argument on forests over N <= 2/3 nodes. Generated: Hypothesis histories (<= 7 nodes, <= 30 calls) over 14 class choices, read-free histories, and "
     "histories built inside a helper that hands back one or two nodes only (the rest of the tree is kept alive by its links alone; parent chain and whole tree are then read from the kept node). "
     "Non-trivial = a successful call that changes at least one link, or a refusal. Enumerated distinct by construction; histories hashed."
@@ -26,7 +26,7 @@ ASSUMPTIONS = [
     "non-node arguments are generated for NodeMixin-based classes only (the statement prescribes TreeError only there)",
 ]
 CLASS_SPECS = ["HNM", "HLM", "Node", "AnyNode", "SymlinkNode", "PlainNM", "SlotLM", "DictLM", ["Node", "AnyNode", "SymlinkNode", "PlainNM"], ["SlotLM", "DictLM"], ["Node", "SymlinkNodeU"], ["AnyNode", "SymlinkNodeU", "SymlinkNodeU"], "HEqNM", "HEqLM"]
-CTORS = {"Node": lambda **kw: Node("new", **kw), "AnyNode": lambda **kw: AnyNode(name="new", **kw), "SymlinkNode": lambda **kw: SymlinkNode(Node("t"), **kw)}
+CTORS = {"Node": lambda **kw: Node("new", **kw), "AnyNode": lambda **kw: AnyNode(name="new", **kw), "SymlinkNode": lambda **kw: SymlinkNode(Node("t"), **kw), "LateSuperNM": lambda **kw: nodes.LateSuperNM("new", **kw)}
 
 
 def describe(op, state):
@@ -126,7 +126,58 @@ def check_ownerless(case, acc):
     acc.tag("kept_node_below_an_unreferenced_root", nontrivial)
 
 
+def check_deep(case, acc):
+    """Structural calls at the bottom of a chain that is deeper than the interpreter's recursion limit: the loop check
+    and the link updates walk parent chains iteratively, so the calls have exactly the specified effect there too."""
+    make = nodes.factory(case["cls"])
+    depth = big.deep_size()
+    chain = big.build_chain(make, depth, case["route"])
+    root, bottom = chain[0], chain[-1]
+    for i in (0, 1, depth // 2, depth - 2, depth - 1):
+        big.expect_links(chain[i], chain[i - 1] if i else None, [chain[i + 1]] if i + 1 < depth else [], "chain of %d nodes built by %s, node %d" % (depth, case["route"], i))
+    fresh = [make(depth + k) for k in range(4)]
+    ctx = "%s chain of %d nodes (%s)" % (case["cls"], depth, case["route"])
+    # attach below the bottom
+    out = big.outcome_of(lambda: setattr(fresh[0], "parent", bottom))
+    if out is not None:
+        raise Violation("spurious-refusal", "%s: attaching a new leaf at the bottom raised %s" % (ctx, out))
+    big.expect_links(bottom, chain[-2], [fresh[0]], ctx + " after attaching a leaf at the bottom")
+    # children assignment at the bottom (keeps one, adds two)
+    out = big.outcome_of(lambda: setattr(bottom, "children", [fresh[1], fresh[0], fresh[2]]))
+    if out is not None:
+        raise Violation("spurious-refusal", "%s: children assignment at the bottom raised %s" % (ctx, out))
+    big.expect_links(bottom, chain[-2], [fresh[1], fresh[0], fresh[2]], ctx + " after a children assignment at the bottom")
+    # constructor with parent= where the class has one
+    if case["cls"] in ("Node", "AnyNode"):
+        try:
+            extra = Node("ctor-leaf", parent=fresh[2]) if case["cls"] == "Node" else AnyNode(name="ctor-leaf", parent=fresh[2])
+        except RecursionError:
+            raise Violation("spurious-refusal", "%s: constructing a node with parent= at the bottom raised RecursionError" % ctx)
+        big.expect_links(fresh[2], bottom, [extra], ctx + " after constructing a node with parent=")
+    # loops must still be refused, with the right class, and change nothing
+    for what, call in (
+        ("root.parent = bottom", lambda: setattr(root, "parent", bottom)),
+        ("bottom.children = [root]", lambda: setattr(bottom, "children", [root])),
+        ("middle.parent = leaf below it", lambda: setattr(chain[depth // 2], "parent", fresh[1])),
+    ):
+        out = big.outcome_of(call)
+        if out != "LoopError":
+            raise Violation("refusal-class", "%s: %s must raise LoopError, got %s" % (ctx, what, out))
+    big.expect_links(root, None, [chain[1]], ctx + " after refused loops")
+    # move the lower half up to the root, then detach it
+    mid = chain[depth // 2]
+    out = big.outcome_of(lambda: setattr(mid, "parent", root))
+    if out is not None:
+        raise Violation("spurious-refusal", "%s: moving the lower half below the root raised %s" % (ctx, out))
+    big.expect_links(root, None, [chain[1], mid], ctx + " after moving the lower half below the root")
+    big.expect_links(chain[depth // 2 - 1], chain[depth // 2 - 2], [], ctx + " after moving the lower half away")
+    acc.nontrivial(True)
+    acc.tag("deep_chain_cases")
+
+
 def check_case(case, acc):
+    if case.get("kind") == "deep":
+        return check_deep(case, acc)
     if case.get("kind") == "ownerless":
         return check_ownerless(case, acc)
     if case.get("kind") == "blind":
@@ -273,6 +324,9 @@ def plan(tier, seed):
         tasks.append({"engine": "blind-hyp", "examples": examples, "seed": seed * 1000 + 300 + i})
         if i % 4 == 0:
             tasks.append({"engine": "ownerless-hyp", "examples": examples, "seed": seed * 1000 + 600 + i})
+    for cls in ("Node", "AnyNode", "PlainNM", "SlotLM"):
+        for route in ("parent", "children"):
+            tasks.append({"engine": "deep", "cls": cls, "route": route})
     for spec in ("Node", "SlotLM", "AnyNode", "SymlinkNode"):
         for n, length in ([(2, 3), (3, 2)] if tier == "quick" else [(2, 4), (3, 3)]):
             shards = 4 if (n, length) == (2, 3) else nshards
@@ -301,6 +355,12 @@ def random_cases(draw):
 
 
 def run_task(task, acc):
+    if task["engine"] == "deep":
+        case = {"kind": "deep", "cls": task["cls"], "route": task["route"]}
+        exc = acc.evaluate(check_case, case, enumerated=False)
+        if exc is not None:
+            acc.add_violation(case, exc)
+        return
     if task["engine"] == "ownerless-hyp":
         @st.composite
         def ownerless(draw):
